@@ -97,10 +97,11 @@ Definition r_remove (i : nat) (r : reg) : reg :=
 (* ---- two levels ----------------------------------------------------------- *)
 Record sw := mkSw {
   conns : reg;                       (* Swarm.conns *)
-  strs : list (nat * reg)            (* Conn.streams of every connection that was registered *)
+  strs : list (nat * reg);           (* Conn.streams of every connection that was registered *)
+  lsts : reg                         (* Swarm.listeners: same protocol (AddListenAddr / close) *)
 }.
 
-Definition sw0 := mkSw reg0 [].
+Definition sw0 := mkSw reg0 [] reg0.
 
 Fixpoint sget (c : nat) (l : list (nat * reg)) : reg :=
   match l with
@@ -118,7 +119,10 @@ Fixpoint sset (c : nat) (x : reg) (l : list (nat * reg)) : list (nat * reg) :=
   end.
 
 Definition on_strs (c : nat) (f : reg -> reg) (s : sw) : sw :=
-  mkSw (conns s) (sset c (f (sget c (strs s))) (strs s)).
+  mkSw (conns s) (sset c (f (sget c (strs s))) (strs s)) (lsts s).
+
+Definition on_conns (f : reg -> reg) (s : sw) : sw := mkSw (f (conns s)) (strs s) (lsts s).
+Definition on_lsts (f : reg -> reg) (s : sw) : sw := mkSw (conns s) (strs s) (f (lsts s)).
 
 Inductive step :=
 | SOffer (c : nat)          (* addConn called with a new upgraded connection *)
@@ -131,7 +135,13 @@ Inductive step :=
 | TAddCS (c t : nat)        (* addStream's critical section *)
 | TAddRel (c t : nat)       (* addStream: ts.Reset() after ErrConnClosed; the caller Dones the scope *)
 | TCloseRel (c t : nat)     (* doClose: s.Reset() for a stream of the snapshot *)
-| TRemove (c t : nat).      (* a stream closed by its user: removeStream, scope.Done *)
+| TRemove (c t : nat)       (* a stream closed by its user: removeStream, scope.Done *)
+| LOffer (l : nat)          (* AddListenAddr: tpt.Listen returned a listener *)
+| LAddCS (l : nat)          (* AddListenAddr's critical section *)
+| LAddRel (l : nat)         (* AddListenAddr: list.Close() after ErrSwarmClosed *)
+| LCloseCS                  (* Swarm.close: listeners := s.listeners.m; s.listeners.m = nil *)
+| LCloseRel (l : nat)       (* Swarm.close: go l.Close() for a listener of the snapshot *)
+| LRemove (l : nat).        (* the accept loop ends on its own (listener error): deletes itself, closes *)
 
 Definition is_registered (c : nat) (r : reg) : bool :=
   match get c (items r) with Some Registered => true | _ => false end.
@@ -141,16 +151,22 @@ Definition conn_close (c : nat) (s : sw) : sw := on_strs c r_closecs s.
 
 Definition sstep (s : sw) (o : step) : sw :=
   match o with
-  | SOffer c => mkSw (r_offer c (conns s)) (strs s)
-  | SAddCS c => mkSw (r_addcs c (conns s)) (strs s)
-  | SAddRel c => mkSw (r_addrel c (conns s)) (strs s)
-  | SCloseCS => mkSw (r_closecs (conns s)) (strs s)
+  | SOffer c => on_conns (r_offer c) s
+  | SAddCS c => on_conns (r_addcs c) s
+  | SAddRel c => on_conns (r_addrel c) s
+  | SCloseCS => on_conns r_closecs s
   | SCloseRel c =>
       if mem c (taken (conns s))
-      then conn_close c (mkSw (r_closerel c (conns s)) (strs s)) else s
+      then conn_close c (on_conns (r_closerel c) s) else s
   | SRemove c =>
       if is_registered c (conns s)
-      then conn_close c (mkSw (r_remove c (conns s)) (strs s)) else s
+      then conn_close c (on_conns (r_remove c) s) else s
+  | LOffer l => on_lsts (r_offer l) s
+  | LAddCS l => on_lsts (r_addcs l) s
+  | LAddRel l => on_lsts (r_addrel l) s
+  | LCloseCS => on_lsts r_closecs s
+  | LCloseRel l => on_lsts (r_closerel l) s
+  | LRemove l => on_lsts (r_remove l) s
   (* streams can only be offered to a connection that is (or was) registered *)
   | TOffer c t =>
       match get c (items (conns s)) with
@@ -177,14 +193,18 @@ Definition r_all_released (r : reg) : bool :=
   forallb (fun p => ist_eqb (snd p) Released) (items r).
 
 Definition quiescent (s : sw) : bool :=
-  r_quiescent (conns s) && forallb (fun cr => r_quiescent (snd cr)) (strs s).
+  r_quiescent (conns s) && forallb (fun cr => r_quiescent (snd cr)) (strs s) && r_quiescent (lsts s).
 
 Definition all_gone (s : sw) : bool :=
-  r_all_released (conns s) && forallb (fun cr => r_all_released (snd cr)) (strs s).
+  r_all_released (conns s) && forallb (fun cr => r_all_released (snd cr)) (strs s) && r_all_released (lsts s).
+
+(* Swarm.close runs both critical sections *)
+Definition swarm_closed (s : sw) : bool := closed (conns s) && closed (lsts s).
 
 (* ---- wire format of a close-race case -------------------------------------
      5 nconn  then per connection: add_ok closed nstream, then per stream: open_ok released
-     then: conns_left usage_conns usage_streams
+     then: nlisten, per listener: add_ok closed
+     then: conns_left listeners_left usage_conns usage_streams
    add_ok: 1 = addConn returned no error; open_ok: 1 = addStream registered the
    stream, 0 = addStream refused it (connection closed), 2 = no muxed stream was
    created at all; closed / released: 1 = the harness's fake connection / muxed
@@ -257,11 +277,30 @@ Fixpoint sched_after (c : nat) (cs : list (Z * Z * list (Z * Z))) : list step :=
        else [SOffer c; SAddCS c; SAddRel c]) ++ sched_after (S c) r
   end%list.
 
-Definition schedule (cs : list (Z * Z * list (Z * Z))) : list step :=
-  (sched_before 0 cs ++ [SCloseCS] ++ sched_after 0 cs)%list.
+Fixpoint lsched_before (l : nat) (ls : list (Z * Z)) : list step :=
+  match ls with
+  | [] => []
+  | (a, _) :: r => ((if a =? 1 then [LOffer l; LAddCS l] else []) ++ lsched_before (S l) r)%list
+  end.
+
+Fixpoint lsched_after (l : nat) (ls : list (Z * Z)) : list step :=
+  match ls with
+  | [] => []
+  | (a, _) :: r => ((if a =? 1 then [LCloseRel l] else [LOffer l; LAddCS l; LAddRel l]) ++ lsched_after (S l) r)%list
+  end.
+
+Definition schedule (cs : list (Z * Z * list (Z * Z))) (ls : list (Z * Z)) : list step :=
+  (sched_before 0 cs ++ lsched_before 0 ls ++ [LCloseCS; SCloseCS] ++ sched_after 0 cs ++ lsched_after 0 ls)%list.
+
 
 Definition status_z (o : option ist) : Z :=
   match o with Some Released => 1 | Some _ => 0 | None => 2 end.
+
+Fixpoint lmodel_obs (s : sw) (l : nat) (ls : list (Z * Z)) : list Z :=
+  match ls with
+  | [] => []
+  | _ :: r => status_z (get l (items (lsts s))) :: lmodel_obs s (S l) r
+  end.
 
 (* model's final observation for the same case: per connection (registered?,
    released?), per stream likewise *)
@@ -288,37 +327,45 @@ Fixpoint impl_obs (cs : list (Z * Z * list (Z * Z))) : list Z :=
       (b :: map (fun ob : Z * Z => if (a =? 1) && negb (fst ob =? 2) then snd ob else 2) ss) ++ impl_obs r
   end%list.
 
-Definition close_conform (l : list Z) : list Z :=
+(* conns, listeners, and the four trailing numbers *)
+Definition dec_case (l : list Z) : option (list (Z * Z * list (Z * Z)) * list (Z * Z) * (Z * Z * Z * Z)) :=
   match l with
   | n :: r =>
-      if (n <? 0) || (1000 <? n) then [ERR_MALFORMED; 50] else
+      if (n <? 0) || (1000 <? n) then None else
       match dec_conns (Z.to_nat n) r with
-      | Some (cs, [nleft; uc; us]) =>
-          let s := srun sw0 (schedule cs) in
-          if negb (quiescent s) then [ERR_MISMATCH; 51]
-          else if list_eqb Z.eqb (model_obs s 0 cs) (impl_obs cs) then []
-          else ERR_MISMATCH :: 52 :: model_obs s 0 cs
-      | _ => [ERR_MALFORMED; 51]
+      | Some (cs, k :: r1) =>
+          if (k <? 0) || (1000 <? k) then None else
+          match dec_streams (Z.to_nat k) r1 with
+          | Some (ls, [cleft; lleft; uc; us]) => Some (cs, ls, (cleft, lleft, uc, us))
+          | _ => None
+          end
+      | _ => None
       end
-  | _ => [ERR_MALFORMED; 52]
+  | _ => None
   end.
+
+Definition close_conform (l : list Z) : list Z :=
+  match dec_case l with
+  | Some (cs, ls, _) =>
+      let s := srun sw0 (schedule cs ls) in
+      if negb (quiescent s && swarm_closed s) then [ERR_MISMATCH; 51]
+      else if list_eqb Z.eqb (model_obs s 0 cs ++ lmodel_obs s 0 ls) (impl_obs cs ++ map snd ls) then []
+      else ERR_MISMATCH :: 52 :: (model_obs s 0 cs ++ lmodel_obs s 0 ls)
+  | None => [ERR_MALFORMED; 51]
+  end%list.
 
 (* the property on the implementation's observations alone: every connection
    given to the swarm is closed, every stream opened on one is released, the
    swarm holds no connection, and usage is zero *)
 Definition close_monitor (l : list Z) : list Z :=
-  match l with
-  | n :: r =>
-      if (n <? 0) || (1000 <? n) then [ERR_MALFORMED; 50] else
-      match dec_conns (Z.to_nat n) r with
-      | Some (cs, [nleft; uc; us]) =>
-          let conns_closed := forallb (fun c : Z * Z * list (Z * Z) => snd (fst c) =? 1) cs in
-          let streams_gone :=
-            forallb (fun c : Z * Z * list (Z * Z) =>
-                       forallb (fun ob : Z * Z => (fst ob =? 2) || (snd ob =? 1)) (snd c)) cs in
-          if conns_closed && streams_gone && (nleft =? 0) && (uc =? 0) && (us =? 0) then []
-          else [ERR_PROPERTY; 5; boolz conns_closed; boolz streams_gone; nleft; uc; us]
-      | _ => [ERR_MALFORMED; 51]
-      end
-  | _ => [ERR_MALFORMED; 52]
+  match dec_case l with
+  | Some (cs, ls, (cleft, lleft, uc, us)) =>
+      let conns_closed := forallb (fun c : Z * Z * list (Z * Z) => snd (fst c) =? 1) cs in
+      let streams_gone :=
+        forallb (fun c : Z * Z * list (Z * Z) =>
+                   forallb (fun ob : Z * Z => (fst ob =? 2) || (snd ob =? 1)) (snd c)) cs in
+      let listeners_closed := forallb (fun ob : Z * Z => snd ob =? 1) ls in
+      if conns_closed && streams_gone && listeners_closed && (cleft =? 0) && (lleft =? 0) && (uc =? 0) && (us =? 0) then []
+      else [ERR_PROPERTY; 5; boolz conns_closed; boolz streams_gone; boolz listeners_closed; cleft; lleft; uc; us]
+  | None => [ERR_MALFORMED; 51]
   end.
